@@ -377,6 +377,16 @@ def _contains(I, container: Any, item: Any, st, item_expr) -> list:
             members = h.items
         elif h.kind == "dict":
             members = list(h.fields.keys())
+        elif h.kind == "obj" and h.cls in I.model.classes:
+            m = I.model.find_method(I.model.classes[h.cls], "__contains__")
+            if m is not None:
+                out = []
+                for v, s2 in I.call_func(m.qualname, [container, item], {}, st):
+                    if isinstance(v, bool):
+                        out.append((v, s2))
+                    else:
+                        out.extend(I.truth_fork(v, s2))
+                return out
     if members is None:
         if isinstance(container, Text) and isinstance(item, str):
             key = (container.tid, "contains", item)
